@@ -55,7 +55,7 @@ m("M-capdid", "C17", "CAP-did", ("x/sao/keeper/msg_server_store.go", "\tif propo
 # ---------------------------------------------------------------- C20
 m("M27", "C20", "G-hooks", ("x/node/keeper/hooks.go", "func (hook Hooks) AfterDelegationModified(ctx sdk.Context, delAddr sdk.AccAddress, valAddr sdk.ValAddress) error {\n", "func (hook Hooks) AfterDelegationModified(ctx sdk.Context, delAddr sdk.AccAddress, valAddr sdk.ValAddress) error {\n\tif delAddr.Empty() {\n\t\treturn nil\n\t}\n"))
 m("M28", "C20", "G-promote", ("x/node/keeper/msg_server_add_vstorage.go", "if pledge.TotalStorage >= k.VstorageThreshold(ctx) {", "if pledge.TotalStorage >= k.VstorageThreshold(ctx) || msg.Size_ > 1<<40 {"))
-m("M28b", "C20", "G-promote", ("x/node/keeper/msg_server_reset.go", "if found && pledge.TotalStorage >= k.VstorageThreshold(ctx) {", "if found {"))
+m("M28b", "C20", "G-promote", ("x/node/keeper/msg_server_reset.go", "if found && pledge.TotalStorage >= k.VstorageThreshold(ctx) {", "if found && pledge.TotalStorage >= 0 {"))
 m("M-demote1", "C20", "G-demote", ("x/node/keeper/hooks.go", "\t\t\tif !found || pledge.TotalStorage < hook.k.VstorageThreshold(ctx) {\n\t\t\t\tif node.Role == types.NODE_SUPER {\n\t\t\t\t\thook.k.SetNormalNode(ctx, node.Creator)\n\t\t\t\t}\n\t\t\t\tcontinue", "\t\t\tif !found || pledge.TotalStorage < hook.k.VstorageThreshold(ctx) {\n\t\t\t\tcontinue"))
 m("M-demote2", "C20", "G-demote", ("x/node/keeper/msg_server_remove_vstorage.go", "\t// check super node\n\tif pledge.TotalStorage < k.VstorageThreshold(ctx) {", "\t// check super node\n\tif pledge.TotalStorage+size.Int64() < k.VstorageThreshold(ctx) {"))
 m("M-reset-role", "C20", "G-demote", ("x/node/keeper/msg_server_reset.go", "\tnode.Role = types.NODE_NORMAL\n\tif msg.Status", "\tif msg.Status"))
@@ -154,6 +154,11 @@ P = [
  ("S-C14-a1", "C14", "T-couple", "/verif/seeded/C14-a1/patch.diff"),
  ("S-C06-a1", "C06", "T-booked", "/verif/seeded/C06-a1/patch.diff"),
  ("S-C07-a1", "C07", "T-couple", "/verif/seeded/C07-a1/patch.diff"),
+ ("S-C04-a1", "C04", "T-refund-booked", "/verif/seeded/C04-a1/patch.diff"),
+ ("S-C05-a1", "C05", "T-cancel-pre", "/verif/seeded/C05-a1/patch.diff"),
+ ("S-C11-a1", "C11", "T-paid-end", "/verif/seeded/C11-a1/patch.diff"),
+ ("S-C12-a1", "C12", "T-timeout-height", "/verif/seeded/C12-a1/patch.diff"),
+ ("S-C13-a1", "C13", "T-partition", "/verif/seeded/C13-a1/patch.diff"),
 ]
 for (id, prop, rule, path) in P:
     M.append((id, prop, rule, [("@patch", path, "")]))
